@@ -56,7 +56,9 @@ RULE = (
 ASSUMPTIONS = [
     "pyarrow IPC reader/writer (used to build requests, to classify mutated bytes and to parse replies) is trusted",
     "stall decided structurally as in C04 (thread liveness, /proc syscall state, FIONREAD, frame identity)",
-    "requests naming header-less stream methods are out of this check (their follow-up input stream belongs to C04)",
+    "a request naming a registered header-less stream method is sent the way every client of such a method sends it: "
+    "request stream immediately followed by the phase-2 input stream (family headerless); header-less names are kept out "
+    "of the single-request families because there the missing input stream would make the *client* the protocol violator",
 ]
 SHARDS = {"quick": 4, "thorough": 16}
 TECHNIQUE = (
@@ -82,7 +84,11 @@ _PARAMS: dict[str, list[tuple[str, pa.DataType, Any]]] = {
     "exch_h": [("tag", pa.int64(), 7), ("init", pa.utf8(), "raise"), ("ilogs", pa.int64(), 0), ("script", pa.utf8(), "e"),
                ("logs", pa.int64(), 0)],
 }
+_PARAMS["prod"] = _PARAMS["prod_h"]
+_PARAMS["exch"] = [("tag", pa.int64(), 7), ("init", pa.utf8(), "ok"), ("ilogs", pa.int64(), 0), ("script", pa.utf8(), "ee"),
+                   ("logs", pa.int64(), 1)]
 _HEADER_STREAMS = ("prod_h", "exch_h")
+_HEADERLESS_STREAMS = ("prod", "exch")
 
 # --------------------------------------------------------------------------- type palette (values built from Python)
 
@@ -181,6 +187,14 @@ _shm_focus_request = st.builds(
     st.sampled_from(["absent", "ok", "nonnumeric", "negative", "huge", "zero", "nonutf8"]),
     st.sampled_from(["absent", "absent", "absent", "0", "hdr", "nonnumeric", "negative", "huge", "nonutf8"]),
     st.sampled_from(["absent", "absent", "0", "64", "nonnumeric", "negative", "huge"]),
+)
+# a request naming a registered header-less stream method, followed — as StreamSession does — by the input stream
+headerless_cases = st.fixed_dictionaries(
+    {"t": st.sampled_from(["pipe", "unix"]), "m": st.sampled_from(_HEADERLESS_STREAMS),
+     "req": st.sampled_from([0, 1, 1, 1]).flatmap(
+         lambda i: [_request, st.builds(lambda r, md: {**r, "md": md, "other": [], "extra": [], "cols": {"kind": "params"}, "rows": 1},
+                                        _request, st.builds(_focus, _md, st.sampled_from(["rv", "rv", "pv", "trace", "shm_name"])))][i]),
+     "input": st.sampled_from(["tick", "tick", "two", "eos_only", "typed"]), "nonce": st.integers(0, 2**40)}
 )
 sequence_cases = st.fixed_dictionaries(
     {"t": st.sampled_from(["pipe", "unix"]),
@@ -376,6 +390,20 @@ def _empty_input_stream() -> bytes:
             pass
         _EMPTY_INPUT = buf.getvalue()
     return _EMPTY_INPUT
+
+
+def _input_stream(how: str) -> bytes:
+    """The phase-2 input stream a client of a header-less stream method writes right after the request."""
+    buf = io.BytesIO()
+    if how == "typed":
+        sch = pa.schema([pa.field("v", pa.int64())])
+        with ipc.new_stream(buf, sch) as w:
+            w.write_batch(pa.record_batch([pa.array([1], pa.int64())], schema=sch))
+        return buf.getvalue()
+    with ipc.new_stream(buf, pa.schema([])) as w:
+        for _ in range({"tick": 1, "two": 2, "eos_only": 0}[how]):
+            w.write_batch(pa.RecordBatch.from_pylist([], schema=pa.schema([])))
+    return buf.getvalue()
 
 
 def _classify(data: bytes) -> str:
@@ -599,6 +627,32 @@ def run_wellframed(case: dict[str, Any]) -> Outcome:
     return out
 
 
+def run_headerless(case: dict[str, Any]) -> Outcome:
+    """request(header-less stream method, generated perturbations) + input stream, written back to back: whatever the
+    server decides (run the stream, typed error), exactly one reply stream comes back and the input stream must not be
+    read as the next request — the probe that follows gets its own answer."""
+    out = Outcome()
+    req = {**case["req"], "m": case["m"]}
+    segs = _Segments()
+    live = _Live(case["t"])
+    try:
+        data = _request_bytes(req, segs)
+        if _classify(data) != "valid1":
+            raise AssertionError("generator produced a request pyarrow does not call a complete single-batch stream")
+        pert = _perturbations(req)
+        out.nontrivial = bool(pert)
+        out.label(f"t={case['t']}", f"method={case['m']}", f"input={case['input']}", f"cols={req['cols']['kind']}",
+                  f"rows={req['rows']}", *[f"perturbed={p}" for p in pert])
+        before = len(out.violations)
+        _judge_wellframed(live, data + _input_stream(case["input"]), False, case["nonce"], out,
+                          f"request {req!r} + {case['input']} input stream on {case['t']}", "headerless_stream_request")
+        out.violations[before:] = [(f"headerless/{key}", what) for key, what in out.violations[before:]]
+    finally:
+        live.close()
+        segs.close()
+    return out
+
+
 def run_sequence(case: dict[str, Any]) -> Outcome:
     """Several well-framed requests on ONE connection: a valid request first attaches a real client-owned segment
     (so the connection's segment cache is warm), then generated requests re-advertise it with perturbed metadata.
@@ -676,3 +730,4 @@ def main(chk: Check) -> None:
     chk.explore("wellframed", wellframed_cases, run_wellframed, quick=3000, thorough=40000)
     chk.explore("bytes", bytes_cases, run_bytes, quick=600, thorough=8000)
     chk.explore("sequence", sequence_cases, run_sequence, quick=450, thorough=6000)
+    chk.explore("headerless", headerless_cases, run_headerless, quick=500, thorough=8000)
